@@ -161,7 +161,49 @@ def parseChunks : Nat → Bytes → Option (Bytes × Bytes)
           | some (b, r) => some (rest.take n ++ b, r)
           | none => none
 
-/-- parse exactly one response; every byte must be accounted for -/
+/-- the four header names the server manages itself -/
+def managedName (n : Bytes) : Bool :=
+  ciEq n nConnection || ciEq n nTransferEncoding || ciEq n nContentLength || ciEq n nDate
+
+def clsOf (fields : List Field) : List Field := fields.filter fun f => ciEq f.name nContentLength
+def tesOf (fields : List Field) : List Field := fields.filter fun f => ciEq f.name nTransferEncoding
+def connsOf (fields : List Field) : List Field := fields.filter fun f => ciEq f.name nConnection
+
+/-- the framing rules of RFC 7230 §3.3.3 applied to a parsed head and the bytes that follow it;
+    every byte must be accounted for -/
+def frameReply (req : Req) (ver : Bytes) (code : Nat) (reason : Bytes) (fields : List Field) (bodyBytes : Bytes) :
+    Option Parsed :=
+  let cls := clsOf fields
+  let tes := tesOf fields
+  let conns := connsOf fields
+  -- at most one of each framing header, never both, well-formed values
+  if cls.length > 1 || tes.length > 1 || conns.length > 1 then none
+  else if ! cls.isEmpty && ! tes.isEmpty then none
+  else if ! (cls.all fun f => (parseDec f.value).isSome) then none
+  else if ! (tes.all fun f => ciEq f.value vChunked) then none
+  else if ! tes.isEmpty && ! req.http11 then none                 -- chunked only to HTTP/1.1 clients
+  else
+    let noBodyHdrs := code < 200 || code = 204
+    let noBody := noBodyHdrs || req.head || code = 304
+    if noBodyHdrs && (! cls.isEmpty || ! tes.isEmpty) then none    -- RFC 7230 §3.3.1, §3.3.2
+    else if noBody then
+      if bodyBytes.isEmpty then some ⟨ver, code, reason, fields, .none, [], []⟩ else none
+    else if ! tes.isEmpty then
+      match parseChunks (bodyBytes.length + 1) bodyBytes with
+      | none => none
+      | some (body, rest2) =>
+        match parseFields (rest2.length + 1) rest2 with
+        | some (trailers, []) => some ⟨ver, code, reason, fields, .chunked, body, trailers⟩
+        | _ => none
+    else match cls with
+      | f :: _ =>
+        (match parseDec f.value with
+         | some n => if bodyBytes.length = n then some ⟨ver, code, reason, fields, .length n, bodyBytes, []⟩ else none
+         | none => none)
+      | [] =>
+        if announcesClose fields then some ⟨ver, code, reason, fields, .close, bodyBytes, []⟩ else none
+
+/-- parse exactly one response -/
 def parseReply (req : Req) (bs : Bytes) : Option Parsed :=
   match takeLine bs with
   | none => none
@@ -171,36 +213,7 @@ def parseReply (req : Req) (bs : Bytes) : Option Parsed :=
     | some (ver, code, reason) =>
       match parseFields (rest.length + 1) rest with
       | none => none
-      | some (fields, bodyBytes) =>
-        let cls := fields.filter fun f => ciEq f.name nContentLength
-        let tes := fields.filter fun f => ciEq f.name nTransferEncoding
-        let conns := fields.filter fun f => ciEq f.name nConnection
-        -- at most one of each framing header, never both, well-formed values
-        if cls.length > 1 || tes.length > 1 || conns.length > 1 then none
-        else if ! cls.isEmpty && ! tes.isEmpty then none
-        else if ! (cls.all fun f => (parseDec f.value).isSome) then none
-        else if ! (tes.all fun f => ciEq f.value vChunked) then none
-        else if ! tes.isEmpty && ! req.http11 then none                 -- chunked only to HTTP/1.1 clients
-        else
-          let noBodyHdrs := code < 200 || code = 204
-          let noBody := noBodyHdrs || req.head || code = 304
-          if noBodyHdrs && (! cls.isEmpty || ! tes.isEmpty) then none    -- RFC 7230 §3.3.1, §3.3.2
-          else if noBody then
-            if bodyBytes.isEmpty then some ⟨ver, code, reason, fields, .none, [], []⟩ else none
-          else if ! tes.isEmpty then
-            match parseChunks (bodyBytes.length + 1) bodyBytes with
-            | none => none
-            | some (body, rest2) =>
-              match parseFields (rest2.length + 1) rest2 with
-              | some (trailers, []) => some ⟨ver, code, reason, fields, .chunked, body, trailers⟩
-              | _ => none
-          else match cls with
-            | f :: _ =>
-              (match parseDec f.value with
-               | some n => if bodyBytes.length = n then some ⟨ver, code, reason, fields, .length n, bodyBytes, []⟩ else none
-               | none => none)
-            | [] =>
-              if announcesClose fields then some ⟨ver, code, reason, fields, .close, bodyBytes, []⟩ else none
+      | some (fields, bodyBytes) => frameReply req ver code reason fields bodyBytes
 
 /-- `bytes` is one well-formed, self-consistently framed response to `req` -/
 def WellFramed (req : Req) (bytes : Bytes) : Prop := (parseReply req bytes).isSome = true
